@@ -599,6 +599,20 @@ func (vc *VC) specCall(x CCall, env *SpecEnv) Term {
 			return vc.specFail("sameType needs two values of the same interface sort")
 		}
 		return Term{fmt.Sprintf("(= (tag.%s %s) (tag.%s %s))", a[0].Sort, a[0].S, a[0].Sort, a[1].S), SBool, nil}
+	case "less":
+		// the natural order of the element type: < on integers, byte-wise order on strings
+		a := args()
+		if a[0].Sort == SInt && a[1].Sort == SInt {
+			return Term{fmt.Sprintf("(< %s %s)", a[0].S, a[1].S), SBool, nil}
+		}
+		if a[0].Sort == SStr && a[1].Sort == SStr {
+			vc.ss.declare(&sortInfo{Name: "str$lt", Kind: "const", Decl: "(declare-fun gs.lt (Str Str) Bool)"})
+			return Term{fmt.Sprintf("(gs.lt %s %s)", a[0].S, a[1].S), SBool, nil}
+		}
+		// other ordered element types: an uninterpreted strict order per sort
+		fn := "lt." + sanitize(string(a[0].Sort))
+		vc.ss.declare(&sortInfo{Name: Sort("fn$" + fn), Kind: "const", Decl: fmt.Sprintf("(declare-fun %s (%s %s) Bool)", fn, a[0].Sort, a[0].Sort)})
+		return Term{fmt.Sprintf("(%s %s %s)", fn, a[0].S, a[1].S), SBool, nil}
 	case "strLess":
 		a := args()
 		vc.ss.declare(&sortInfo{Name: "str$lt", Kind: "const", Decl: "(declare-fun gs.lt (Str Str) Bool)"})
